@@ -212,7 +212,19 @@ class Interleaved(Sub):
                     removed = True
                     labels.append("removal")
                 if (i + 1) in case["points"] or i + 1 == len(case["store"]):
+                    # each filter is preceded by a copy of itself with a narrower time window: whatever the relay remembers
+                    # about a set of conditions (plans, statements) must not carry the earlier window along
+                    tss = sorted(e["created_at"] for e in stored.values()) or [E.T0]
+                    variants = []
                     for f in filters:
+                        if "since" not in f and "until" not in f:
+                            # a window that excludes everything stored so far / splits the store in the middle
+                            w = [{"since": tss[-1] + 1}, {"until": tss[0] - 1}, {"since": tss[len(tss) // 2]},
+                                 {"until": tss[len(tss) // 2]}][i % 4]
+                            if all(0 <= v < R.TS_LIMIT for v in w.values()):
+                                variants.append(dict(f, **w))
+                        variants.append(f)
+                    for f in variants:
                         if sum(1 for e in stored.values() if R.may_match(e, f)) > R.effective_limit(f, MAX_LIMIT):
                             labels.append("over-limit")
                             continue
@@ -297,6 +309,44 @@ class SqlConcurrent(Sub):
         return Result(viol, racing[0] > 0, ["early-reads:%s" % ("0" if not early[0] else "1+"),
                                             "racing-polls:%s" % ("0" if not racing[0] else "1+")],
                       sample={"case": case, "early_reads": early[0], "events_polled_while_in_flight": racing[0]})
+
+
+class Bulk(Sub):
+    """results far larger than any page or buffer, with many events sharing a timestamp"""
+
+    name = "bulk"
+    examples = {"quick": 16, "thorough": 128}
+    shards = {"quick": 8, "thorough": 16}
+    rule = ("120..1500 stored events over 1 / 3 / 17 / N distinct timestamps, two authors, tags t=a|b; the unlimited internal "
+            "query path (run_single_query, limit 600000) asked for kinds / authors+kinds / #t / a time window: every matching "
+            "event exactly once; non-trivial = more than 500 events match and at least two of them share a timestamp")
+
+    def strategy(self, tier):
+        return st.tuples(st.sampled_from(["kv", "sql"]), st.sampled_from([120, 700, 700, 1003, 1003, 1500]),
+                         st.sampled_from([1, 3, 17, 0]), st.integers(0, 3)).map(list)
+
+    def run_case(self, case):
+        return H.run(self._run, case, timeout=600)
+
+    async def _run(self, case):
+        backend, n, nts, shape = case
+        viol = []
+        store = [E.free("%064x" % (i + 1), qgen.PUBS[i % 2], 1 if i % 5 else 2, E.T0 + (i % nts if nts else i),
+                        [["t", "a" if i % 3 else "b"]], "") for i in range(n)]
+        f = [{"kinds": [1]}, {"authors": [qgen.PUBS[0]], "kinds": [1, 2]}, {"#t": ["a"]}, {"since": E.T0 - 1, "until": E.T0 + n + 1}][shape]
+        async with H.Rig(backend, validators=[]) as rig:
+            for ev in store:
+                await rig.add(ev, pump=False) if backend == "kv" else await rig.storage.add_event(dict(ev))
+            rig.pump()
+            await rig.settle()
+            stored = await rig.dump()
+            # an explicit limit: without one the filter model defaults to max_limit, which the SQL path honours even here
+            got = await rig.query([dict(f, limit=100000)])
+            n_must, n_non = check_answer(backend, stored, [f], got, viol, where="run_single_query/bulk")
+            del viol[3:]
+        ties = len({e["created_at"] for e in store}) < len(store)
+        return Result(viol, n_must > 500 and ties, ["backend:" + backend, "matches>500" if n_must > 500 else "matches<=500"],
+                      sample={"case": case, "matching": n_must})
 
 
 def plan_classes(filters):
@@ -459,4 +509,4 @@ class SmallScope(Sub):
                       evals=len(filters), nt_hashes=nt)
 
 
-SUBCHECKS = [Complete(), ForcedIndex(), Interleaved(), SqlConcurrent(), SmallScope()]
+SUBCHECKS = [Complete(), ForcedIndex(), Interleaved(), SqlConcurrent(), Bulk(), SmallScope()]
